@@ -169,6 +169,8 @@ def generate(seed, tier):
              'coerce': rnd.random() < 0.6, 'async': rnd.random() < 0.5, 'xs': xs, 'xmode': xmode}
         if not c['ctx'] and rnd.random() < 0.2:
             c['view'] = True
+        elif rnd.random() < 0.25:
+            c['shared'] = True        # ONE PydanticValidator shared with a sibling function of the same __name__, served first
         if c['ctx'] and rnd.random() < 0.5:
             c['ctxv'] = rnd.randrange(1, 7)
         cases.append(c)
@@ -259,7 +261,7 @@ def dispatch(case, f, is_async, sibling=None):
     else:
         d.add(f)
     if sibling is not None:
-        d.add(sibling)
+        d.add(sibling, name='g')
         t0 = json.dumps({'jsonrpc': '2.0', 'id': 0, 'method': 'g', 'params': {'gx': 's'}})
         r0 = dispenv.loop().run_until_complete(d.dispatch(t0, context='CTX')) if is_async else d.dispatch(t0, context='CTX')
         assert json.loads(r0[0]).get('result') == 'g', r0
@@ -320,7 +322,12 @@ def observe(case):
         return {'obs': obs, 'js': js, 'ran': len(log)}
     v = v_pd.PydanticValidator(coerce=case['coerce'], exclude_param=predicate(case))
     f = v.validate(make_function(case, case['async'], log, annotations=case['anns']))
-    obs = dispatch(case, f, case['async'])
+    sibling = None
+    if case.get('shared'):
+        ns = {}
+        exec('%sdef f(gx: str):\n    return "g"\n' % ('async ' if case['async'] else ''), ns)       # same __name__, other signature
+        sibling = v.validate(ns['f'])
+    obs = dispatch(case, f, case['async'], sibling=sibling)
     verdicts = {}
     p = case['params']
     names = [q[0] for q in case['sig'] if q[0] not in (case.get('xs') or ())]
